@@ -338,6 +338,20 @@ func c06Concretise(c *c06Case, rng *rand.Rand) {
 						t.Ts = []string{"0", "1", "7", "12", "123", "999999", strconv.Itoa(rng.Intn(1000000))}[rng.Intn(7)]
 					}
 					t.Sfx = ""
+				case "p11":
+					// 10, 11 or 12 digits, always the same for one abstract timestamp of the case
+					if t.Ts == "" {
+						base := c.concreteTs(rng, t.TsAbs, false)
+						switch {
+						case base[10] <= '3':
+							t.Ts = "1" + base[2:]
+						case base[10] <= '6':
+							t.Ts = base
+						default:
+							t.Ts = "5" + base
+						}
+					}
+					t.Sfx = ""
 				default:
 					if t.Ts == "" {
 						t.Ts = c.concreteTs(rng, t.TsAbs, t.Shape == "d15")
